@@ -105,7 +105,7 @@ def read_interactions(path, comments="#", directed=False, delimiter=None,
     ids = None
     lines = (line.decode(encoding) for line in path)
     if keys:
-        ids = read_ids(path.name, delimiter=delimiter, timestamptype=timestamptype)
+        ids = read_ids(path.name, delimiter=delimiter, timestamptype=timestamptype, comments=comments, encoding=encoding)
 
     return parse_interactions(lines, comments=comments, directed=directed, delimiter=delimiter, nodetype=nodetype,
                               timestamptype=timestamptype, keys=ids)
@@ -290,24 +290,32 @@ def read_snapshots(path, comments="#", directed=False, delimiter=None,
     ids = None
     lines = (line.decode(encoding) for line in path)
     if keys:
-        ids = read_ids(path.name, delimiter=delimiter, timestamptype=timestamptype)
+        ids = read_ids(path.name, delimiter=delimiter, timestamptype=timestamptype, comments=comments, encoding=encoding)
 
     return parse_snapshots(lines, comments=comments, directed=directed, delimiter=delimiter, nodetype=nodetype,
                            timestamptype=timestamptype, keys=ids)
 
 
-def read_ids(path, delimiter=None, timestamptype=None):
-    f = open(path)
+def read_ids(path, delimiter=None, timestamptype=None, comments="#", encoding='utf-8'):
+    """Rank of every timestamp of the rows that the parsers read (comments, blank and malformed rows are skipped)."""
     ids = {}
-    for line in f:
-        s = line.rstrip().split(delimiter)
-        ids[timestamptype(s[-1])] = None
-        if len(line) == 4:
-            if s[-2] not in ['+', '-']:
-                ids[timestamptype(s[-2])] = None
-
-    f.flush()
-    f.close()
+    with open(path, encoding=encoding) as f:
+        for line in f:
+            p = line.find(comments)
+            if p >= 0:
+                line = line[:p]
+            s = line.strip().split(delimiter)
+            if len(s) < 3:
+                continue
+            if s[2] in ['+', '-']:
+                # interaction list row: u v op t
+                if len(s) == 4:
+                    ids[timestamptype(s[3])] = None
+            else:
+                # snapshot row: u v t [e]
+                ids[timestamptype(s[2])] = None
+                if len(s) > 3:
+                    ids[timestamptype(s[3])] = None
 
     ids = compact_timeslot(ids.keys())
     return ids
